@@ -209,7 +209,7 @@ package pmm
 //@   property C01 C03
 //@   raw region
 //@   rawstores
-//@   requires alloc != nil && pageSizeMinus1 == 4095 && poolIndex >= 0 && addrof(region) < 0x1000000000000 && regSane(addrof(region))
+//@   requires alloc != nil && poolIndex >= 0 && addrof(region) < 0x1000000000000 && regSane(addrof(region))
 //@   requires mem32(addrof(region)+16) == 1 ==> poolIndex < len(alloc.pools) && regStart(addrof(region)) <= regEnd(addrof(region)) && regEnd(addrof(region)) < 0x10000000000000
 //@   modifies poolIndex, bitmapStartAddr, framePool.startFrame, framePool.endFrame, framePool.freeCount, framePool.freeBitmap, reflect.SliceHeader.Data, reflect.SliceHeader.Len, reflect.SliceHeader.Cap
 //@   ensures goes: cont
@@ -263,7 +263,7 @@ package pmm
 //@ func (alloc *BitmapAllocator) setupPoolBitmaps$1(region *multiboot.MemoryMapEntry) (cont bool)
 //@   property C01 C03
 //@   raw region
-//@   requires alloc != nil && pageSizeMinus1 == 4095 && addrof(region) < 0x1000000000000 && regSane(addrof(region))
+//@   requires alloc != nil && addrof(region) < 0x1000000000000 && regSane(addrof(region))
 //@   requires mem32(addrof(region)+16) == 1 ==> regStart(addrof(region)) <= regEnd(addrof(region)) && regEnd(addrof(region)) < 0x10000000000000 && uint64(regEnd(addrof(region)) - regStart(addrof(region))) < 0xffffff00
 //@   modifies requiredBitmapBytes, alloc.totalPages, reflect.SliceHeader.Len, reflect.SliceHeader.Cap
 //@   ensures goes: cont
